@@ -222,6 +222,11 @@ def run(res, tier, seed, shard, nshards):
         if shard == 1 % nshards:
             for variant in ("exempt-then-proxied", "proxied-then-exempt", "ws-env-then-wss", "wss-env-then-ws"):
                 redirect_hops_case(res, W, variant)
+        # the same decision through WebSocketApp.run_forever(), which forwards its own (partly defaulted) proxy options
+        if shard == 2 % nshards:
+            for variant in ("option", "option+type-http", "env", "option-exempt", "none"):
+                for secure in (False, True):
+                    app_path_case(res, W, variant, secure)
         # direct connection when exempt: no CONNECT, origin dialled
         if shard == 0:
             tunnel_case(res, W, rng, "200", False, None, "option", exempt=True)
@@ -454,3 +459,42 @@ def redirect_hops_case(res, W, variant):
         res.violation("redirect-hop-failed", f"{variant}: {type(exc).__name__}: {exc}; routes {log}", case, variant=variant)
     elif log != expect:
         res.violation("redirect-hop-route", f"{variant}: hops went {log}, expected {expect}", case, variant=variant)
+
+
+def app_path_case(res, W, variant, secure):
+    from .. import appsim
+    from ..ref import rfc6455 as R6
+    H.reset_process_state()
+    H.scrub_env()
+    run = appsim.AppRun([dict(outcome="ok", script=[(0.2, "frames", R6.encode(R6.TEXT, b"hi")), (0.5, "close", b"")])],
+                        url=("wss" if secure else "ws") + "://origin.test:9443/chat", via_proxy=(variant in ("option", "option+type-http", "env")), last_repeats=False)
+    run.network.add_host("proxy.test", ["203.0.113.9"])
+    run.network.add_host("origin.test", ["198.51.100.7"])
+    kw = {}
+    if variant.startswith("option"):
+        kw.update(http_proxy_host="proxy.test", http_proxy_port=3128)
+    if variant == "option+type-http":
+        kw["proxy_type"] = "http"
+    if variant == "option-exempt":
+        kw["http_no_proxy"] = ["origin.test"]
+    if variant == "env":
+        os.environ["https_proxy" if secure else "http_proxy"] = "http://proxy.test:3128"
+    try:
+        run.run_forever(**kw)
+    finally:
+        H.scrub_env()
+    res.count("tunnel_cases")
+    res.count("app_path_cases")
+    res.case(("app-path", variant, secure), nontrivial=True)
+    case = {"path": "WebSocketApp.run_forever", "variant": variant, "secure": secure}
+    dialled = [a[1] for a in run.network.connect_attempts]
+    msgs = [a[0] for (t, n, a, ci, ac) in run.trace if n == "on_message"]
+    errs = [repr(a[0])[:120] for (t, n, a, ci, ac) in run.trace if n == "on_error"]
+    proxied = variant in ("option", "option+type-http", "env")
+    want = [("203.0.113.9", 3128)] if proxied else [("198.51.100.7", 9443)]
+    if errs or msgs != ["hi"]:
+        res.violation("app-proxy-connection-failed", f"{case}: errors {errs}, messages {msgs}", case, variant=variant, via="app")
+    elif dialled != want:
+        res.violation("dialled-address", f"{case}: dialled {dialled}, expected {want}", case, variant=variant, via="app")
+    elif proxied and run.connect_requests != ["CONNECT origin.test:9443 HTTP/1.1"]:
+        res.violation("connect-target", f"{case}: CONNECT lines {run.connect_requests}", case, variant=variant, via="app")
